@@ -473,6 +473,15 @@ func (m *manager) validateAndSignTicketForOrder(ctx context.Context,
 		return err
 	}
 
+	// The recipient of the channel never sees our bid. It derives the
+	// funding shim and the expectations of its channel acceptor (lease
+	// duration, push amount, announcement and zero conf flags) from the
+	// offer in the ticket alone, while the asker opens the channel with
+	// the parameters of the bid. Both must therefore be identical.
+	if err := CheckOfferMatchesBid(o, bid); err != nil {
+		return err
+	}
+
 	// Everything checks out, let's add our signature to the ticket now.
 	return sidecar.SignOrder(
 		ctx, t, bid.nonce, acct.TraderKey.KeyLocator,
